@@ -575,6 +575,21 @@ StdCall(name, args, env, sc, fuel) ==
            ELSE FoldL(f, a[2], T(3), fuel - 1))
     [] name = "toString" /\ Len(args) = 1 ->
          Bind(A(1), LAMBDA v : Bind(ToStr(v, fuel - 1, FALSE), LAMBDA s : Ok(StrV(s))))
+    [] name = "sort" /\ Len(args) = 1 ->
+         \* upstream: `if std.length(arr) <= 1 then arr else <compare elements>`: arrays of at most one
+         \* element are returned untouched (their element is not forced)
+         Bind(A(1), LAMBDA a :
+           IF a[1] # "arr" THEN RtErr
+           ELSE IF Len(a[2]) <= 1 THEN Ok(a)
+           ELSE Bind(ForceAll(a[2], fuel - 1), LAMBDA vs :
+                  IF \A i \in 1..Len(vs) : vs[i][1] = "num"
+                  THEN LET RECURSIVE srt(_)
+                           srt(S) == IF S = {} THEN <<>> ELSE
+                                     LET m == CHOOSE i \in S : \A j \in S : vs[i][2] < vs[j][2] \/ (vs[i][2] = vs[j][2] /\ i <= j)
+                                     IN <<ValTh(vs[m])>> \o srt(S \ {m})
+                       IN Ok(ArrV(srt(1..Len(vs))))
+                  ELSE IF \E i, j \in 1..Len(vs) : vs[i][1] # vs[j][1] THEN RtErr
+                  ELSE Outside))
     [] name = "trace" /\ Len(args) = 2 -> Bind(A(1), LAMBDA m : IF m[1] # "str" THEN RtErr ELSE A(2))
     [] name = "equals" /\ Len(args) = 2 ->
          Both(A(1), A(2), LAMBDA a, b : Bind(EqualV(a, b, fuel - 1), LAMBDA e : Ok(BoolV(e))))
